@@ -212,17 +212,17 @@ theorem clip_end_to_end [Inhabited α] {Poly Geom : Type} (intersects : Poly →
     (buffer : Int) (ydim xdim : String) (hne : ydim ≠ xdim)
     (a : NArr (Option α)) (hwf : a.WF) (hy : (ydim, ny) ∈ a.dims) (hx : (xdim, nx) ∈ a.dims)
     (e : Env) (v : String → Nat) (hv : ∀ d ∈ a.dims, e.get d.1 = some (v d.1) ∧ v d.1 < d.2) :
-    let out := (a.whereMask (maskArr ydim xdim (Clip.gridClipMask ny nx hits buffer))).get? e
+    let out := (a.whereMask (faceMaskVar ydim xdim (Clip.gridClipMask ny nx hits buffer))).get? e
     (Selected intersects polys g ny nx buffer.toNat (v ydim) (v xdim) → out = a.get? e) ∧
     (¬ Selected intersects polys g ny nx buffer.toNat (v ydim) (v xdim) → out = some none) := by
   intro out
   have hjy := hv _ hy
   have hix := hv _ hx
-  have hmask := maskArr_get ydim xdim hne (Clip.gridClipMask ny nx hits buffer) e (v ydim) (v xdim)
+  have hmask := faceMaskVar_get ydim xdim hne (Clip.gridClipMask ny nx hits buffer) e (v ydim) (v xdim)
     hjy.1 hix.1 (by rw [gridClipMask_ny]; exact hjy.2) (by rw [gridClipMask_nx]; exact hix.2)
-  have hsub : ∀ d ∈ (maskArr ydim xdim (Clip.gridClipMask ny nx hits buffer)).names, d ∈ a.names := by
+  have hsub : ∀ d ∈ (faceMaskVar ydim xdim (Clip.gridClipMask ny nx hits buffer)).names, d ∈ a.names := by
     intro d hd
-    rw [maskArr_names] at hd
+    rw [faceMaskVar_names] at hd
     simp only [List.mem_cons, List.not_mem_nil, or_false] at hd
     rcases hd with rfl | rfl
     · exact List.mem_map.mpr ⟨_, hy, rfl⟩
